@@ -90,8 +90,9 @@ type M struct {
 	// StuckTokens are parked forever (gateway without effective flow).
 	StuckTokens []*Token
 	// AllEnds accumulates every end event reached, AllFlows every flow taken.
-	AllEnds  []string
-	AllFlows []string
+	AllEnds      []string
+	AllFlows     []string
+	AllLandmarks []string
 	// groups: event-based gateway group id -> member tokens
 	groups map[int][]*Token
 }
@@ -153,6 +154,7 @@ func (m *M) finish() Obs {
 	o.sortAll()
 	m.AllEnds = append(m.AllEnds, o.Ends...)
 	m.AllFlows = append(m.AllFlows, o.Flows...)
+	m.AllLandmarks = append(m.AllLandmarks, o.Landmarks...)
 	m.obs = nil
 	return o
 }
